@@ -1,5 +1,6 @@
 """C17: flight helpers always end on the ground command and track motion faithfully."""
 import math
+import os
 import struct
 
 from hypothesis import strategies as st
@@ -59,14 +60,14 @@ class _Cf:
     def send_packet(self, pk, expected_reply=(), resend=False, timeout=0.2):
         self.s.yield_point()
         port, channel = (pk.header & 0xF0) >> 4, pk.header & 0x03      # as a link driver would transmit it
+        t0 = self.s.now       # a packet counts from the moment it is handed to the link
         if port == 7 and channel == 0 and len(pk.data) > 1:
             self.hover_count += 1
             if self.stall and self.hover_count == self.stall['at']:
                 # the link stalls (e.g. a full driver queue): this send blocks for a while
-                t0 = self.s.now
                 self.s.sleep(self.stall['dur'])
                 self.stalls.append((t0, self.s.now))
-        self.packets.append((self.s.now, port, channel, bytes(pk.data)))
+        self.packets.append((t0, port, channel, bytes(pk.data)))
 
 
 def _decode(pk):
@@ -238,46 +239,79 @@ def run_mc(case):
             # full command list: take-off up, body commands, landing down
             full = [(t_first, (0, 0, 0.2, 0)), (t_first + case['height'] / 0.2, (0, 0, 0, 0))] + cmds
             full.sort(key=lambda x: x[0])
-            # landing: after the last body command the library descends at 0.2 m/s until the stream ends
-            t_body_end = full[-1][0] if full else t_first
+            commanded = list(full)
 
-            def z_at(t, include_landing=False):
-                z = 0.0
-                for (ta, va), nxt in zip(full, full[1:] + [(1e18, None)]):
-                    tb = min(nxt[0], t)
-                    if tb > ta:
-                        z += va[2] * (tb - ta)
-                    if nxt[0] >= t:
+            def effective(skip):
+                # while a send is stalled the setpoint thread takes no commands: each command takes effect at the setpoint with which
+                # the thread consumed it (one command per setpoint, in order), the height is integrated over that timeline.
+                # `skip`: index of a setpoint that consumed nothing (its wait for a command ran out at the very instant one came)
+                eff = []
+                j = 0
+                for tc_, vc_ in commanded:
+                    while j < len(hov) and (hov[j][1] < tc_ - 1e-9 or j == skip):
+                        j += 1
+                    if j >= len(hov):
                         break
+                    eff.append((max(tc_, hov[j][1]), vc_))
+                    j += 1
+                return eff
+            timelines = [commanded]
+            if cf.stalls:
+                stalled = [j for j, h in enumerate(hov) if any(abs(h[1] - st0) <= 1e-9 for st0, st1 in cf.stalls)]
+                timelines = [effective(None)] + [effective(j) for j in stalled]
+                if os.environ.get('C17_DEBUG'):
+                    print('commanded', commanded, '\neff', timelines, '\nstalls', cf.stalls, '\nhov', [(round(h[1], 4), round(h[5], 4)) for h in hov])
+            t_stall = min([st0 for st0, st1 in cf.stalls], default=1e18)
+
+            def z_commanded(t):
+                z = 0.0
+                for (ta, va), nxt in zip(commanded, commanded[1:] + [(1e18, None)]):
+                    if min(nxt[0], t) > ta:
+                        z += va[2] * (min(nxt[0], t) - ta)
                 return z
 
-            def vec_options(t):
-                opts = []
-                cur = (0, 0, 0, 0)
-                for ta, va in full:
-                    if ta < t - 1e-9:
-                        cur = va
-                    elif abs(ta - t) <= 1e-9:
-                        opts.append(va)
-                opts.append(cur)
-                return opts
-            t_land = None
-            t_stall = min([st0 for st0, st1 in cf.stalls], default=1e18)
-            for d in hov:
-                t = d[1]
-                if t >= t_stall - 1e-9:
-                    break      # a stalled link delays the setpoint thread: what it streams afterwards lags the commands
-                if t <= t_body_end + 1e-9:
-                    zs = z_at(t)
-                    if abs(d[5] - F32(zs)) > 1e-5 * max(1.0, abs(zs)):
-                        out.fail('mc:height-integral', '%s: hover setpoint at %.4f has z=%.6f, integral of commanded v_z is %.6f' % (desc, t, d[5], zs))
-                        break
-                    if t < t_body_end - 1e-9:
-                        ok = any(abs(d[2] - F32(o[0])) < 1e-5 and abs(d[3] - F32(o[1])) < 1e-5 and abs(d[4] - F32(o[3])) < 1e-3 for o in vec_options(t))
-                        if not ok:
-                            out.fail('mc:commanded-vector', '%s: hover setpoint at %.4f is (vx=%.4f, vy=%.4f, rate=%.3f), commanded %r' % (
-                                desc, t, d[2], d[3], d[4], vec_options(t)))
+            def judge(full):
+                # landing: after the last body command the library descends at 0.2 m/s until the stream ends
+                t_body_end = full[-1][0] if full else t_first
+
+                def z_at(t):
+                    z = 0.0
+                    for (ta, va), nxt in zip(full, full[1:] + [(1e18, None)]):
+                        tb = min(nxt[0], t)
+                        if tb > ta:
+                            z += va[2] * (tb - ta)
+                        if nxt[0] >= t:
                             break
+                    return z
+
+                def vec_options(t):
+                    opts = []
+                    cur = (0, 0, 0, 0)
+                    for ta, va in full:
+                        if ta < t - 1e-9:
+                            cur = va
+                        elif abs(ta - t) <= 1e-9:
+                            opts.append(va)
+                    opts.append(cur)
+                    return opts
+                for d in hov:
+                    t = d[1]
+                    if t <= t_body_end + 1e-9:
+                        zs = z_at(t)
+                        late = t > t_stall + 1e-9
+                        if late and 'height-after-stall' not in out.features:
+                            out.feat('height-after-stall')
+                        if abs(d[5] - F32(zs)) > 1e-5 * max(1.0, abs(zs)) and not (late and abs(d[5] - F32(z_commanded(t))) <= 1e-5 * max(1.0, abs(zs))):
+                            return ('mc:height-integral', '%s: hover setpoint at %.4f has z=%.6f, integral of commanded v_z is %.6f' % (desc, t, d[5], zs))
+                        if t < t_body_end - 1e-9:
+                            ok = any(abs(d[2] - F32(o[0])) < 1e-5 and abs(d[3] - F32(o[1])) < 1e-5 and abs(d[4] - F32(o[3])) < 1e-3 for o in vec_options(t))
+                            if not ok:
+                                return ('mc:commanded-vector', '%s: hover setpoint at %.4f is (vx=%.4f, vy=%.4f, rate=%.3f), commanded %r' % (
+                                    desc, t, d[2], d[3], d[4], vec_options(t)))
+                return None
+            verdicts = [judge(tl) for tl in timelines]
+            if all(v is not None for v in verdicts):
+                out.fail(*verdicts[0])
     vertical = any(x['op'] in ('up', 'down', 'start_up', 'start_down') or (x['op'] in ('move', 'start_linear') and x['vec'][2]) for x in steps)
     nprim = len([x for x in steps if x['op'] != 'wait'])
     out.nontrivial = (nprim >= 3 and vertical) or case['raise_at'] is not None
